@@ -22,7 +22,7 @@ ASSUMPTIONS = ['the reference uses emd.sift.interp_envelope (captured before int
                'energy_thresh cases with exactly zero IMF or residual energy are not judged (np.log10(where=) leaves them undefined)']
 
 SD = (1e-6, 0.01, 0.1, 0.5)
-RILLING = ((0.05, 0.5, 0.05), (0.1, 0.5, 0.1), (0.3, 1.0, 0.3))
+RILLING = ((0.05, 0.5, 0.05), (0.1, 0.5, 0.1), (0.3, 1.0, 0.3), (0.2, 3.0, 0.2))     # sd1 / sd2 are ratios, not proportions: values above 1 are legal
 FIXED = (1, 2, 3, 7)
 STEPS = (1.0, 0.5, 1.0 / 3, 0.05)
 MAXITERS = (1, 2, 4, 30)
